@@ -1,0 +1,7 @@
+//go:build !verif
+
+package desync
+
+// verifYield marks a point the verification harness can observe and gate (build tag verif). Without the
+// tag it does nothing.
+func verifYield(point string, kv ...interface{}) {}
